@@ -52,12 +52,14 @@ UNSORTED_KEY = "lowrank.partition-order:unsorted-list"
 # tie: observe the plan of the real _define_initialize (K4 callees replaced by recording stubs)
 # ---------------------------------------------------------------------------------------------
 
-def observe_plan(v, n, part, lr, iso, uni):
+def observe_plan(v, n, part, lr, iso, uni, mode=None):
+    """`mode`: see build_opts ('no-schemes' / 'default-partition' / 'none' leave options at their defaults; the op sent to
+    the model then names the documented defaults ccd / qsd / first ceil(n/2) qubits / lr = 0)."""
     from unittest import mock
     from qiskit import QuantumCircuit
     from qclib.state_preparation import lowrank
     from qclib.entanglement import _separation_matrix, _effective_rank
-    opts = {"lr": lr, "partition": list(part), "iso_scheme": iso, "unitary_scheme": uni}
+    opts = build_opts({"mode": mode, "lr": lr, "partition": list(part), "iso": iso, "uni": uni})
     g = lowrank.LowRankInitialize(v, opt_params=opts)
     ev = []
     cap = {}
@@ -140,10 +142,12 @@ def observe_plan(v, n, part, lr, iso, uni):
     return lines, [float(x) for x in s]
 
 
-def tie_plan(ctx, v, n, part, lr, iso, uni):
-    lines, s = observe_plan(v, n, part, lr, iso, uni)
+def tie_plan(ctx, v, n, part, lr, iso, uni, mode=None):
+    lines, s = observe_plan(v, n, part, lr, iso, uni, mode=mode)
     ctx.tie({"op": "plan", "n": n, "P": [int(a) for a in part], "lr": lr, "s": s, "iso": iso, "uni": uni}, lines)
     ctx.count("plan:sorted" if list(part) == sorted(part) else "plan:unsorted")
+    if mode:
+        ctx.count("branch:tie:opts=" + mode)
 
 
 def run_tie(ctx):
@@ -210,7 +214,7 @@ def audit_encoders(v, n, opts):
     with mock.patch.object(lowrank, "decompose_isometry", iso_chk), \
             mock.patch.object(lowrank, "decompose_unitary", uni_chk):
         qc = QuantumCircuit(n)
-        lowrank.LowRankInitialize.initialize(qc, v, opt_params=dict(opts))
+        lowrank.LowRankInitialize.initialize(qc, v, opt_params=None if opts is None else dict(opts))
         Statevector(qc)
     return found
 
@@ -236,15 +240,33 @@ def eval_case(task):
     eff = int((ss > 1e-7).sum())
     want = c09.clp2(lr if 0 < lr < eff else eff)
     vin = np.array(v, copy=True)
-    opts = {"lr": lr, "partition": list(part), "iso_scheme": iso, "unitary_scheme": uni}
+    opts = build_opts(task)
+    opts_in = None if opts is None else {k: (list(x) if isinstance(x, list) else x) for k, x in opts.items()}
+    entry = task.get("entry")
     try:
-        qc = QuantumCircuit(n)
-        LowRankInitialize.initialize(qc, v, opt_params=opts)
-        sv = Statevector(qc).data
+        if entry:
+            # explicit wire list on a wider circuit: gate qubit i on wire entry["qubits"][i], the other wires stay |0>
+            qc = QuantumCircuit(entry["width"])
+            LowRankInitialize.initialize(qc, v, qubits=list(entry["qubits"]), opt_params=opts)
+            full = Statevector(qc).data
+            idx = [sum(((k >> i) & 1) << entry["qubits"][i] for i in range(n)) for k in range(2 ** n)]
+            sv = full[idx]
+            rest = np.delete(full, idx)
+            if rest.size and float(np.abs(rest).max()) > 1e-7:
+                return task["key"], [f"amplitude {float(np.abs(rest).max()):.2e} outside the wires {entry['qubits']}"], {}
+        elif task.get("label") is not None:
+            gate = LowRankInitialize(v, label=task["label"], opt_params=opts)
+            if gate.label != task["label"]:
+                return task["key"], [f"label {task['label']!r} passed, gate.label = {gate.label!r}"], {}
+            sv = Statevector(gate.definition).data
+        else:
+            qc = QuantumCircuit(n)
+            LowRankInitialize.initialize(qc, v, opt_params=opts)
+            sv = Statevector(qc).data
     except Exception as ex:
         return task["key"], [f"raised {type(ex).__name__}: {str(ex)[:200]}"], {}
     problems = []
-    if not np.array_equal(vin, v) or opts != {"lr": lr, "partition": list(part), "iso_scheme": iso, "unitary_scheme": uni}:
+    if not np.array_equal(vin, v) or opts != opts_in:
         problems.append("inputs modified")
     kept = float((ss[:want] ** 2).sum())
     fid = float(abs(np.vdot(v, sv)) ** 2)
@@ -276,13 +298,35 @@ def eval_case(task):
     return task["key"], problems, info
 
 
-def make_task(name, n, part, v, lr, iso, uni):
+def build_opts(task):
+    """opt_params as handed to the real code.  mode 'full' (default): lr, partition and both schemes; 'no-schemes': lr and
+    partition only (iso_scheme / unitary_scheme defaults ccd / qsd); 'default-partition': lr only (partition = first
+    ceil(n/2) qubits); 'none': opt_params=None (lr = 0, default partition, default schemes).  `svd` is added when given."""
+    mode = task.get("mode") or "full"
+    if mode == "none":
+        return None
+    opts = {"lr": task["lr"]}
+    if mode != "default-partition":
+        opts["partition"] = list(task["partition"])
+    if mode == "full":
+        opts["iso_scheme"], opts["unitary_scheme"] = task["iso"], task["uni"]
+    if task.get("svd"):
+        opts["svd"] = task["svd"]
+    return opts
+
+
+def make_task(name, n, part, v, lr, iso, uni, mode=None, svd=None, label=None, entry=None):
     import framework
     v = np.asarray(v)
+    extra = "".join(f":{t}" for t in (mode and "opts=" + mode, svd and "svd=" + svd, label is not None and "label",
+                                      entry and "qubits=" + ",".join(map(str, entry["qubits"]))) if t)
     return {"repo": framework.REPO, "family": name, "n": n, "partition": [int(a) for a in part], "lr": int(lr),
             "iso": iso, "uni": uni, "re": [float(x) for x in np.real(v)], "im": [float(x) for x in np.imag(v)],
-            "real": bool(np.isrealobj(v)),
-            "key": f"lowrank:{name}:n={n}:P={','.join(map(str, part))}:lr={lr}:{iso}/{uni}"}
+            "real": bool(np.isrealobj(v)), "mode": mode, "svd": svd, "label": label, "entry": entry,
+            "key": f"lowrank:{name}:n={n}:P={','.join(map(str, part))}:lr={lr}:{iso}/{uni}{extra}"}
+
+
+REPLAY_FIELDS = ("family", "n", "partition", "lr", "iso", "uni", "re", "im", "real", "mode", "svd", "label", "entry")
 
 
 def report_finding(ctx, key, detail, rep):
@@ -311,7 +355,7 @@ def run_tasks(ctx, tasks, unsorted_probe=False):
         ctx.count(f"fam:{task['family'].rstrip('0123456789')}")
         ctx.count(f"scheme:{task['iso']}/{task['uni']}")
         if problems:
-            rep = {k: task[k] for k in ("family", "n", "partition", "lr", "iso", "uni", "re", "im", "real")}
+            rep = {k: task.get(k) for k in REPLAY_FIELDS}
             rep["call"] = "LowRankInitialize.initialize + Statevector"
             blame = info.get("encoder_blame")
             if blame:
@@ -384,8 +428,34 @@ def probe_unsorted(ctx):
     t, p = bad[0]
     detail = (f"LowRankInitialize(v, partition={t['partition']}, lr={t['lr']}) (n={t['n']}): " + "; ".join(p) +
               f" [{len(bad)}/{len(res)} unsorted probes wrong]")
-    rep = {k: t[k] for k in ("family", "n", "partition", "lr", "iso", "uni", "re", "im", "real")}
+    rep = {k: t.get(k) for k in REPLAY_FIELDS}
     ctx.fail(UNSORTED_KEY, detail, rep)
+
+
+AUTO_RANDOMIZED_KEY = "lowrank.auto-randomized-svd:n=14:lr=1:suboptimal"
+
+
+def probe_auto_randomized(ctx):
+    """Fixed 14-qubit input with the DEFAULT options and lr = 1 across a 7-qubit partition.  svd='auto' hands this size to
+    randomized_svd (entanglement.py:218-231: n >= 14, rank == 1, more than round(n/2.5) partition qubits), whose rank-1
+    result is only an approximation of the leading Schmidt pair when more than rank + 12 coefficients are present (and
+    varies from call to call: module-level unseeded generator).  The prepared product state then has a fidelity BELOW the
+    largest squared Schmidt coefficient, which contradicts the property as stated for every n.  Reported under one key."""
+    from props import c09
+    rng = np.random.default_rng(14)
+    n, part = 14, [0, 2, 4, 6, 8, 10, 12]
+    v = c09.rand_unit(rng, 2 ** n)
+    t = make_task("auto-randomized-probe", n, part, v, 1, "ccd", "qsd")
+    key, problems, info = eval_case(t)
+    ctx.count("auto-randomized-probe:" + ("suboptimal" if problems else "optimal"))
+    if not problems:
+        ctx.ok(AUTO_RANDOMIZED_KEY, nontrivial=True)
+        return
+    rep = {k: t.get(k) for k in REPLAY_FIELDS if k not in ("re", "im")}
+    rep["vector"] = "c09.rand_unit(np.random.default_rng(14), 2**14)"
+    rep["call"] = "LowRankInitialize.initialize(qc, v, opt_params={'lr': 1, 'partition': [0,2,4,6,8,10,12], ...}) + Statevector"
+    ctx.fail(AUTO_RANDOMIZED_KEY, f"{key}: " + "; ".join(problems) + " -- svd='auto' (default) switches to the randomized "
+             "SVD for n >= 14, lr = 1, |partition| > round(n/2.5): approximate and not reproducible", rep)
 
 
 PRECISION_M = [[-0.729069172542213, 0.493998485646007], [-0.5117022689246972, -0.3024283467785967],
@@ -407,7 +477,7 @@ def probe_encoder_precision(ctx):
     if not problems:
         ctx.ok("lowrank.encoder-precision:iso:csd", nontrivial=True)
         return
-    rep = {k: t[k] for k in ("family", "n", "partition", "lr", "iso", "uni", "re", "im", "real")}
+    rep = {k: t.get(k) for k in REPLAY_FIELDS}
     blame = info.get("encoder_blame")
     if blame:
         report_finding(ctx, f"lowrank.encoder-precision:{blame['kind']}",
@@ -417,14 +487,135 @@ def probe_encoder_precision(ctx):
         ctx.fail(key, "; ".join(problems), rep)
 
 
+# ---------------------------------------------------------------------------------------------
+# branch coverage of the anchored sources (tools/branch_audit.py C07)
+# ---------------------------------------------------------------------------------------------
+
+UNREACHED_JUSTIFIED = {
+    "qclib/state_preparation/lowrank.py:cnot_count,_cnots": "CNOT estimate of the low-rank circuit: property C10",
+    "qclib/entanglement.py:_get_iota,generalized_cross_product,meyer_wallach_entanglement,geometric_entanglement,qb_approximation": "entanglement measures / QB approximation: not called by LowRankInitialize",
+    "qclib/entanglement.py:schmidt_composition,_undo_separation_matrix": "inverse direction of the reshape, property C09; LowRankInitialize only decomposes",
+}
+
+
+def default_partition(n):
+    return list(range(n // 2 + n % 2))
+
+
+def product_across(rng, n, part):
+    """A state of Schmidt rank exactly 1 across `part` (random complex factors on both sides)."""
+    from props import c09
+    return c09.with_spectrum(rng, n, sorted(part), [1.0])
+
+
+def run_tie_branches(ctx):
+    """Plans with options left at their defaults (lowrank.py:85-107) - the op handed to the model names the
+    documented default values - and the size threshold of svd='auto' (entanglement.py:218-231)."""
+    from props import c09
+    rng = ctx.nprng()
+    for n in (2, 3, 4, 5):
+        dp = default_partition(n)
+        fams = c09.families(ctx, rng, n, dp)
+        for name, v in [fams[0], ctx.rng.choice(fams[1:])]:
+            for lr in (0, 1, 2):
+                tie_plan(ctx, v, n, dp, lr, "ccd", "qsd", mode="no-schemes")
+                tie_plan(ctx, v, n, dp, lr, "ccd", "qsd", mode="default-partition")
+            tie_plan(ctx, v, n, dp, 0, "ccd", "qsd", mode="none")
+        sub = [n - 1] if n < 4 else [1, n - 1]
+        name, v = c09.families(ctx, rng, n, sub)[0]
+        for lr in (0, 1):
+            tie_plan(ctx, v, n, sub, lr, "ccd", "qsd", mode="no-schemes")
+    # n = 14, lr = 1, svd = 'auto': partitions of more than round(14/2.5) = 6 qubits go to randomized_svd (which returns the
+    # requested rank 1 = the model's rank for lr = 1), six qubits or fewer to np.linalg.svd
+    n = 14
+    for part in ([0, 2, 4, 6, 8, 10, 12], [13, 1, 2, 3, 5, 8, 9, 11], [0, 3, 6, 7, 9, 13]):
+        v = product_across(rng, n, part)
+        tie_plan(ctx, v, n, part, 1, "ccd", "qsd")
+        ctx.count("branch:tie:n=14:" + ("auto->randomized" if len(part) > 6 else "auto->regular"))
+
+
+def gen_branch_tasks(ctx):
+    from props import c09
+    rng = ctx.nprng()
+    tasks = []
+    for n in (2, 3, 4, 5):
+        dp = default_partition(n)
+        mind = min(2 ** len(dp), 2 ** (n - len(dp)))
+        fams = c09.families(ctx, rng, n, dp)
+        for name, v in [fams[0], fams[1], ctx.rng.choice(fams[2:])]:
+            # options left out of the dictionary / no dictionary at all
+            for lr in sorted({0, 1, mind}):
+                tasks.append(make_task(name, n, dp, v, lr, "ccd", "qsd", mode="no-schemes"))
+                tasks.append(make_task(name, n, dp, v, lr, "ccd", "qsd", mode="default-partition"))
+                ctx.count("branch:opts=no-schemes")
+                ctx.count("branch:opts=default-partition")
+            tasks.append(make_task(name, n, dp, v, 0, "ccd", "qsd", mode="none"))
+            ctx.count("branch:opts=none")
+        name, v = fams[0]
+        # an explicit label; the static entry point with an explicit wire list on a wider circuit
+        tasks.append(make_task(name, n, dp, v, 1, "ccd", "qsd", label=f"lr{n}"))
+        ctx.count("branch:label-given")
+        for lr in (0, 1):
+            sub = ctx.rng.sample(range(n), ctx.rng.randint(1, n - 1))
+            qs = ctx.rng.sample(range(n + 1), n)
+            iso, uni = SCHEMES[(lr + n) % 2]
+            nm, w = ctx.rng.choice(c09.families(ctx, rng, n, sorted(sub)))
+            tasks.append(make_task(nm, n, sub, w, lr, iso, uni, entry={"width": n + 1, "qubits": qs}))
+            ctx.count("branch:initialize:qubits=list")
+    # svd='randomized' named explicitly: exact when the requested rank is a power of two >= Schmidt rank; only lr = 2 is
+    # usable (see the note in run): a Schmidt rank <= 2 state per size
+    for n, part in ((3, [0]), (4, [0, 1]), (4, [3, 1]), (5, [0, 1, 2]), (6, [1, 3, 5])):
+        for spec in ([1.0], [0.8, 0.6], [1.0, 1.0]):
+            v = c09.with_spectrum(rng, n, sorted(part), spec)
+            tasks.append(make_task(f"spectrum{len(spec)}", n, part, v, 2, "ccd", "qsd", svd="randomized"))
+            ctx.count("branch:svd=randomized:lr=2")
+        v = c09.with_spectrum(rng, n, sorted(part), [0.9, 0.4])
+        tasks.append(make_task("spectrum2", n, part, v, 0, "knill", "csd", svd="regular"))
+        ctx.count("branch:svd=regular")
+    # svd='auto' (the default) at the size where it switches to the randomized SVD: n >= 14, lr = 1 and more than
+    # round(n/2.5) partition qubits; product states across the partition (rank 1: the randomized result is exact)
+    n = 14
+    for part in ([0, 2, 4, 6, 8, 10, 12], [0, 3, 6, 7, 9, 13]):
+        v = product_across(rng, n, part)
+        tasks.append(make_task("product-across", n, part, v, 1, "ccd", "qsd"))
+        ctx.count("branch:n=14:" + ("auto->randomized" if len(part) > 6 else "auto->regular"))
+    return tasks
+
+
+def probe_randomized_nested(ctx):
+    """Observation outside C07's quantifier (it ranges over partitions, ranks and the two scheme options, not over `svd`):
+    with svd='randomized' named explicitly every nested LowRankInitialize built by _encode inherits svd='randomized' with
+    lr = 0, randomized_svd then returns zero columns and log2(0) raises.  So lr = 1 (and lr >= 4) cannot be used with it."""
+    from qiskit import QuantumCircuit
+    from qiskit.quantum_info import Statevector
+    from qclib.state_preparation import LowRankInitialize
+    from props import c09
+    v = c09.with_spectrum(np.random.default_rng(5), 3, [0], [1.0])
+    try:
+        qc = QuantumCircuit(3)
+        LowRankInitialize.initialize(qc, v, opt_params={"lr": 1, "partition": [0], "svd": "randomized"})
+        Statevector(qc)
+        ctx.count("observed:svd=randomized,lr=1:works")
+    except Exception as ex:
+        ctx.count("observed:svd=randomized,lr=1:raises")
+        ctx.notes.append("outside the property (svd is not in C07's quantifier; C01 lists svd in {auto, regular}): "
+                         "LowRankInitialize(v, opt_params={'lr': 1, 'partition': [0], 'svd': 'randomized'}) on a 3-qubit product "
+                         f"state raises {type(ex).__name__}: {str(ex)[:80]} - the nested initializers inherit svd='randomized' "
+                         "with lr = 0 and randomized_svd(rank=0) returns no columns; the randomized cases of the oracle "
+                         "therefore use lr = 2 only")
+
+
 def run(ctx):
     from props import c09
     run_tie(ctx)
+    run_tie_branches(ctx)
     if ctx.quick:
         tasks = gen_tasks(ctx, nmax=6, nfull=5, per_n_budget=8)
     else:
         tasks = gen_tasks(ctx, nmax=7, nfull=6, per_n_budget=30)
-    run_tasks(ctx, tasks)
+    run_tasks(ctx, tasks + gen_branch_tasks(ctx))
+    probe_randomized_nested(ctx)
+    probe_auto_randomized(ctx)
     probe_unsorted(ctx)
     probe_encoder_precision(ctx)
     ctx.notes.append(f"generated vectors keep every Schmidt coefficient outside [{c09.BAND[0]}, {c09.BAND[1]}] (rank threshold 1e-7); "
@@ -451,6 +642,10 @@ def search(ctx, hints):
 
 def replay(ctx, payload):
     r = payload["replay"]
+    if r.get("family") == "auto-randomized-probe":
+        probe_auto_randomized(ctx)
+        return
     v = np.array(r["re"]) + (0 if r.get("real") else 1j * np.array(r["im"]))
-    t = make_task(r.get("family", "replay"), r["n"], r["partition"], v, r["lr"], r["iso"], r["uni"])
+    t = make_task(r.get("family", "replay"), r["n"], r["partition"], v, r["lr"], r["iso"], r["uni"], mode=r.get("mode"),
+                  svd=r.get("svd"), label=r.get("label"), entry=r.get("entry"))
     run_tasks(ctx, [t])
